@@ -272,3 +272,41 @@ def const_width(t):
             if w:
                 return w
     return None
+
+
+_DOC_SRC = {}
+
+
+def rustdoc_of(repo, it):
+    """the rustdoc text (joined /// lines) directly above the item's fn line, skipping attributes; None when the source is not readable"""
+    import os
+    p = os.path.join(repo, it['file'])
+    if p not in _DOC_SRC:
+        try:
+            _DOC_SRC[p] = open(p, encoding='utf8', errors='replace').read().split('\n')
+        except OSError:
+            _DOC_SRC[p] = None
+    lines = _DOC_SRC[p]
+    if lines is None:
+        return None
+    i = it['line'] - 1
+    if not (0 <= i < len(lines)):
+        return None
+    doc = []
+    j = i - 1
+    # the recorded line may be the first attribute or the fn line itself
+    while j >= 0:
+        st = lines[j].strip()
+        if st.startswith('///'):
+            doc.append(st[3:].strip())
+        elif st.startswith('#[') or st.startswith('#!['):
+            pass
+        else:
+            break
+        j -= 1
+    k = i
+    while k < len(lines) and (lines[k].strip().startswith('#[') or lines[k].strip().startswith('///')):
+        if lines[k].strip().startswith('///'):
+            doc.append(lines[k].strip()[3:].strip())
+        k += 1
+    return ' '.join(reversed(doc))
